@@ -126,10 +126,6 @@ def exclusions(S):
                 a = S.slot_at(i)[1]
                 b = S.slot_at(e)[1]
                 cons.append(z3.Not(z3.And(a == VI('Token', 'Hat'), b == VI('Token', 'Hat'))))
-        if k == 'ASG' and i + 2 < len(spec) and spec[i + 2] == 'ASG':
-            a = S.slot_at(i)[1]
-            b = S.slot_at(i + 2)[1]
-            cons.append((a == VI('Token', 'Assign')) == (b == VI('Token', 'Assign')))
     return cons
 
 
@@ -464,7 +460,7 @@ def main():
                     explanation='bounded symbolic verification: tokens_to_operator_tree and its callees are executed from MIR on token vectors whose operator '
                                 'tokens are symbolic; state merging yields one path per structural decision; each returned tree must satisfy in-order yield = '
                                 'skeleton and local precedence consistency w.r.t. the README table for every operator assignment on the path (z3 unsat)',
-                    assumptions=['unclaimed forms excluded by assumption: `x ^ -y ^ z` pattern; mixed `=`/op-assign chains',
+                    assumptions=['unclaimed form excluded by assumption: the `x ^ -y ^ z` pattern', 'two adjacent equal-precedence operators group to the right only if both are `=` (chains mixing `=` and op-assign group left-to-right, as the operator table documents)',
                                  'assignment slots only in head position (identifier ASG ...)',
                                  'token vectors are given (tokenizer covered by C06/C07)',
                                  'inputs longer than the bound are outside the claim'],
